@@ -62,6 +62,10 @@ inline size_t& simReadWindow() { static size_t w = 0; return w; }
 inline bool& simReuseObject() { static bool r = false; return r; }
 // F-NOSEEK for a whole run (plan knob "pipe_saves"): every save of the run goes to a stream that cannot seek
 inline bool& simPipeSaves() { static bool r = false; return r; }
+// with plan knob "pipe_alternate" only every other save of such a run (the 1st, 3rd, ...) goes to the non-seekable stream, so that
+// every oracle that compares two saves compares the sizing-pass path with the back-patching path (the bytes must not depend on it)
+inline bool& simPipeAlternate() { static bool r = false; return r; }
+inline unsigned& simSaveCounter() { static unsigned n = 0; return n; }
 // plan knob "save_options": what a non-raw save of the run switches on (0 = optimize + sortBlocks, 1 = optimize only, 2 = sortBlocks only)
 inline int& simSaveOptions() { static int m = 0; return m; }
 
